@@ -426,8 +426,18 @@ spif_objpair_comp(spif_objpair_t self, spif_obj_t other)
 spif_objpair_t
 spif_objpair_dup(spif_objpair_t self)
 {
+    spif_objpair_t tmp;
+
     ASSERT_RVAL(!SPIF_OBJPAIR_ISNULL(self), (spif_objpair_t) NULL);
-    return spif_objpair_new_from_both(self->key, self->value);
+    /* A pair may lack its key and/or value; the copy lacks the same ones. */
+    tmp = spif_objpair_new();
+    if (!SPIF_OBJ_ISNULL(self->key)) {
+        tmp->key = SPIF_OBJ_DUP(self->key);
+    }
+    if (!SPIF_OBJ_ISNULL(self->value)) {
+        tmp->value = SPIF_OBJ_DUP(self->value);
+    }
+    return tmp;
 }
 
 /**
